@@ -833,24 +833,28 @@ class C31(Prop):
     CORR_MODULE = "JsDeps.Corr"
     LEVEL = "proof"
     LEVEL_TEXT = ("Theorems (Coq, closed under the global context) over a model of CWLDependencyListener/NamesStack/"
-                  "regex_eval and an instrumented big-step evaluator of an ES5 fragment. C31_sound_partial / "
-                  "C31_total_partial: for every body of the syntactic function-free fragment in_fragment (dot and quoted-"
-                  "bracket access on identifiers, member chains on bases that cannot be inputs, var, identifier-to-"
-                  "identifier aliasing and re-binding, +, ?:, if/else, return; any nesting, any size), every inputs "
-                  "object and every fuel, the analysis does not fail and a terminating evaluation reads only fields of the "
-                  "dependency set. C31_paramref_sound: the same for every parameter reference with a symbol/quoted first "
-                  "segment. C31_*_refuted: kernel-computed counterexamples showing the property text is FALSE of the "
-                  "analysis outside that fragment: computed access and a nested-scope assignment make it raise; aliasing "
-                  "through var initialisers / chained assignment / parenthesised bases / function parameters / returns / "
-                  "closures / inner scopes, branch-insensitive alias deletion, reserved-word fields, quote stripping and "
-                  "index-first references lose reads. The model is tied to /repo by running resolve_dependencies and the "
-                  "model listener on generated expressions, and to JavaScript by comparing the model evaluator's read set "
-                  "with node's (Proxy around inputs).")
-    LEVEL_NOTE = ("partial: soundness is proved for the function-free fragment and for parameter references; programs with "
-                  "function declarations/expressions/calls are exercised by the correspondence and the oracle, not proved. "
-                  "Trusted: Coq kernel + vm_compute; the hand-written model JsDeps/Model.v; the harness' printer (AST -> "
-                  "JS text) and the ANTLR parser (text -> parse tree) are not modelled; node 20 and cwl_utils' "
-                  "scanner/regex_eval are reference oracles. No axioms.")
+                  "regex_eval and an instrumented big-step evaluator of an ES5 fragment; each says: for EVERY program of a "
+                  "syntactic fragment (boolean predicate in JsDeps/Model.v), EVERY inputs object and EVERY fuel, the analysis "
+                  "does not fail and a terminating evaluation reads only fields of the dependency set. "
+                  "C31_sound_partial: function-free bodies with tracked aliasing of inputs (identifier-to-identifier "
+                  "assignment, re-binding, +, ?:, if/else, return, member chains). C31_sound_functions_partial: "
+                  "expressionLib + body with top-level function declarations and calls (recursion allowed) in which no "
+                  "variable/parameter/return value is ever the inputs object and nothing is named inputs. "
+                  "C31_paramref_sound: parameter references. C31_sound_interpolation_partial: whole interpolated strings "
+                  "mixing text, references and JS parts of those fragments. C31_*_refuted: kernel-computed "
+                  "counterexamples showing the property text is FALSE of the analysis outside the fragments (computed "
+                  "access, nested-scope assignment: analysis raises; aliasing through var initialisers / chained "
+                  "assignment / parenthesised bases / function parameters / returns / closures / inner scopes, branch-"
+                  "insensitive alias deletion, reserved-word fields, quote stripping, index-first references: reads lost). "
+                  "The model is tied to /repo by running resolve_dependencies and the model listener on generated and on "
+                  "real-world expressions, and to JavaScript by comparing the model evaluator's read set with node's.")
+    LEVEL_NOTE = ("partial: nested or shadowing functions, function expressions, aliasing combined with functions, JS "
+                  "identifiers self/runtime and every construct outside the modelled ES5 subset (object/array literals, "
+                  "loops, other operators, method callbacks) are exercised by the correspondence/oracle only; of the "
+                  "expressions found in real .cwl files 16/20 (/repo) and 88/160 (cwltool, cwl_utils test data) lie in "
+                  "a proved fragment (see evidence sample realworld_expressions). Trusted: Coq kernel + vm_compute; the "
+                  "hand-written model JsDeps/Model.v; the harness' printer/mini-parser (AST <-> JS text) and the ANTLR "
+                  "parser are not modelled; node 20 and cwl_utils' scanner/regex_eval are reference oracles. No axioms.")
     TECHNIQUE = ("Coq proof (simulation invariant between the listener's name set and the evaluator's store, by induction "
                  "on evaluation fuel; induction over reference segments; kernel-computed counterexamples) + vm_compute "
                  "correspondence against resolve_dependencies and node")
